@@ -9,8 +9,8 @@
 //
 // Case line:  <cfg> ; <ops> ; <trace>      (the driver reads cfg and trace, a replay re-runs ops)
 //
-//	cfg   mr=<maxRetries> bt=<bundleThreshold> to=<0|1>
-//	ops   a<n> ack n positions | f Flush | k fire debounce timer | q quiesce | Ft/Fs/Fc fail next
+//	cfg   mr=<maxRetries> bt=<bundleThreshold> to=<0|1> bs=<0|1 store commits blindly (no write-conflict detection)>
+//	ops   a<n> ack n positions | f Flush | fc Flush(cancelled ctx) | Tc Teardown(cancelled ctx) | k fire debounce timer | q quiesce | Ft/Fs/Fc fail next
 //	      flush at NewTransaction/Set/Commit | h hold next commit | r release | n<k> next k sends fail
 //	      | hs/rs hold/release sends | T Teardown | W WaitPersisted | X crash+restart
 //	trace a:<p,..> (Ack called) A (Ack returned) C:<pos>/<reopen> FT FS FC S:<p,..> N EP ES T P1 P0 R1 R0 W WH X O:<pos>
@@ -251,6 +251,13 @@ func runOps(cfg runCfg, ops []string) (trace string, verdict string) {
 				continue
 			}
 			go inc.pers.Flush(ctx)
+		case op == "fc":
+			// Flush with an already cancelled context (what a force stop hands down): flushes must
+			// stay serialised on the running one all the same
+			if inc.torn {
+				continue
+			}
+			go inc.pers.Flush(cancelledCtx())
 		case op == "k":
 			inc.clock.fire()
 		case op == "q":
@@ -281,7 +288,7 @@ func runOps(cfg runCfg, ops []string) (trace string, verdict string) {
 			w.mu.Unlock()
 		case op == "rs":
 			w.releaseSends()
-		case op == "T":
+		case op == "T" || op == "Tc":
 			if inc.torn {
 				continue
 			}
@@ -295,7 +302,12 @@ func runOps(cfg runCfg, ops []string) (trace string, verdict string) {
 			inc.torn = true
 			w.emit(inc.id, "T")
 			ret := make(chan error, 1)
-			go func() { ret <- inc.src.Teardown(ctx) }()
+			tctx := ctx
+			if op == "Tc" {
+				// force stop: Teardown with a cancelled context — its bounded waits return at once
+				tctx = cancelledCtx()
+			}
+			go func() { ret <- inc.src.Teardown(tctx) }()
 			var terr error
 			select {
 			case terr = <-ret:
@@ -379,12 +391,22 @@ func runOps(cfg runCfg, ops []string) (trace string, verdict string) {
 	return strings.Join(logCopy, " "), verdict
 }
 
+func cancelledCtx() context.Context {
+	c, cancel := context.WithCancel(context.Background())
+	cancel()
+	return c
+}
+
 func cfgString(c runCfg) string {
 	to := 0
 	if c.timeouts {
 		to = 1
 	}
-	return fmt.Sprintf("mr=%d bt=%d to=%d", c.maxRetries, c.bundleThr, to)
+	bs := 0
+	if c.blind {
+		bs = 1
+	}
+	return fmt.Sprintf("mr=%d bt=%d to=%d bs=%d", c.maxRetries, c.bundleThr, to, bs)
 }
 
 func parseCfg(s string) runCfg {
@@ -402,6 +424,8 @@ func parseCfg(s string) runCfg {
 			c.bundleThr = n
 		case "to":
 			c.timeouts = n == 1
+		case "bs":
+			c.blind = n == 1
 		}
 	}
 	if c.maxRetries < 1 {
@@ -412,7 +436,7 @@ func parseCfg(s string) runCfg {
 
 // faultOp: the op makes the environment misbehave (store failure, failing / held Send, held commit).
 func faultOp(op string) bool {
-	return op == "Ft" || op == "Fs" || op == "Fc" || op == "h" || op == "hs" || (len(op) > 1 && op[0] == 'n')
+	return op == "Ft" || op == "Fs" || op == "Fc" || op == "h" || op == "hs" || op == "Tc" || (len(op) > 1 && op[0] == 'n')
 }
 
 func runCase(cfg runCfg, ops []string) (line, impl string) {
